@@ -2,10 +2,10 @@ package guard
 
 import (
 	"fmt"
-	"strings"
 	"go/constant"
 	"go/token"
 	"go/types"
+	"strings"
 
 	"golang.org/x/tools/go/ssa"
 )
@@ -297,12 +297,13 @@ func ArgInfo(fn *ssa.Function, root *RootInfo, arg ssa.Value, at *ssa.BasicBlock
 
 // Advance describes how a loop variable moves per iteration.
 type Advance struct {
-	Phi   *ssa.Phi
-	Step  ssa.Value       // the amount added / the low bound of the re-slice
-	At    ssa.Instruction // the advancing instruction
-	LB    int             // proven lower bound of Step at that point
-	Taint bool            // Step derives from packet bytes / decoded fields
-	Kind  string          // "reslice" | "offset"
+	Phi      *ssa.Phi
+	Step     ssa.Value       // the amount added / the low bound of the re-slice
+	At       ssa.Instruction // the advancing instruction
+	LB       int             // proven lower bound of Step at that point (overflow-aware)
+	LBNoWrap int             // the same bound if narrow arithmetic is assumed not to wrap
+	Taint    bool            // Step derives from packet bytes / decoded fields
+	Kind     string          // "reslice" | "offset"
 }
 
 // LoopAdvances finds, for every loop-carried slice or integer variable of fn,
@@ -337,7 +338,10 @@ func LoopAdvances(fn *ssa.Function, root *RootInfo) []Advance {
 						continue
 					}
 					lb := fi.intLB(x.Low, x.Block(), 0)
-					out = append(out, Advance{Phi: ph, Step: x.Low, At: x, LB: lb, Taint: tainted(x.Low, 0), Kind: "reslice"})
+					fi.ignoreWrap = true
+					lb2 := fi.intLB(x.Low, x.Block(), 0)
+					fi.ignoreWrap = false
+					out = append(out, Advance{Phi: ph, Step: x.Low, At: x, LB: lb, LBNoWrap: lb2, Taint: tainted(x.Low, 0), Kind: "reslice"})
 				case *ssa.BinOp:
 					if x.Op != token.ADD {
 						continue
@@ -355,7 +359,10 @@ func LoopAdvances(fn *ssa.Function, root *RootInfo) []Advance {
 						continue
 					}
 					lb := fi.intLB(step, x.Block(), 0)
-					out = append(out, Advance{Phi: ph, Step: step, At: x, LB: lb, Taint: tainted(step, 0), Kind: "offset"})
+					fi.ignoreWrap = true
+					lb2 := fi.intLB(step, x.Block(), 0)
+					fi.ignoreWrap = false
+					out = append(out, Advance{Phi: ph, Step: step, At: x, LB: lb, LBNoWrap: lb2, Taint: tainted(step, 0), Kind: "offset"})
 				}
 			}
 		}
@@ -522,3 +529,141 @@ func untrackedLoad(v ssa.Value, depth int) bool {
 	}
 	return false
 }
+
+// PayloadAdvance describes a decoder storing data[n:...] as the bytes the next
+// decoder will see, with a non-constant n.
+type PayloadAdvance struct {
+	At       ssa.Instruction
+	N        ssa.Value
+	LB       int
+	LBNoWrap int
+	Taint    bool
+	AltArith bool // a dominating condition constrains n's source through different arithmetic
+	Loop     bool // n depends on a phi (loop-carried or merged value): no definite verdict
+}
+
+// PayloadAdvances finds X[n:...] slices of the function's byte-slice parameter
+// (offset 0) that are stored into a field named Payload (or the second field
+// of a BaseLayer literal).
+func PayloadAdvances(fn *ssa.Function, data *ssa.Parameter) []PayloadAdvance {
+	if len(fn.Blocks) == 0 || data == nil {
+		return nil
+	}
+	fi := infoFor(fn, &RootInfo{Data: data})
+	live := LiveBlocks(fn)
+	var out []PayloadAdvance
+	for _, b := range fn.Blocks {
+		if !live[b] {
+			continue
+		}
+		for _, ins := range b.Instrs {
+			sl, ok := ins.(*ssa.Slice)
+			if !ok || sl.X != ssa.Value(data) || sl.Low == nil {
+				continue
+			}
+			if _, isK := constInt(sl.Low); isK {
+				continue
+			}
+			// stored into a Payload field?
+			toPayload := false
+			for _, ref := range *sl.Referrers() {
+				if st, ok := ref.(*ssa.Store); ok && st.Val == ssa.Value(sl) {
+					if fa, ok := st.Addr.(*ssa.FieldAddr); ok {
+						t := fa.X.Type().Underlying().(*types.Pointer).Elem().Underlying().(*types.Struct)
+						if t.Field(fa.Field).Name() == "Payload" {
+							toPayload = true
+						}
+					}
+				}
+			}
+			if !toPayload {
+				continue
+			}
+			pa := PayloadAdvance{At: sl, N: sl.Low, Taint: tainted(sl.Low, 0)}
+			pa.LB = fi.intLB(sl.Low, b, 0)
+			fi.ignoreWrap = true
+			pa.LBNoWrap = fi.intLB(sl.Low, b, 0)
+			fi.ignoreWrap = false
+			// leaves of n
+			leaves := map[ssa.Value]bool{}
+			var collect func(v ssa.Value, d int)
+			collect = func(v ssa.Value, d int) {
+				if d > 8 {
+					return
+				}
+				switch x := v.(type) {
+				case *ssa.Convert:
+					collect(x.X, d+1)
+				case *ssa.ChangeType:
+					collect(x.X, d+1)
+				case *ssa.BinOp:
+					collect(x.X, d+1)
+					collect(x.Y, d+1)
+				case *ssa.Const:
+				default:
+					leaves[v] = true
+				}
+			}
+			collect(sl.Low, 0)
+			for l := range leaves {
+				if _, isPhi := l.(*ssa.Phi); isPhi {
+					pa.Loop = true
+				}
+			}
+			nStripped := stripConv(sl.Low)
+			for x := b; x != nil; x = x.Idom() {
+				if len(x.Preds) != 1 {
+					continue
+				}
+				p := x.Preds[0]
+				iff, ok := p.Instrs[len(p.Instrs)-1].(*ssa.If)
+				if !ok {
+					continue
+				}
+				bo, ok := iff.Cond.(*ssa.BinOp)
+				if !ok {
+					continue
+				}
+				for _, side := range []ssa.Value{bo.X, bo.Y} {
+					sv := stripConv(side)
+					if sv == nStripped {
+						continue
+					}
+					if inner, isBin := sv.(*ssa.BinOp); isBin && (inner.Op == token.ADD || inner.Op == token.MUL || inner.Op == token.SUB) {
+						// arithmetic over one of n's leaves that is not n itself
+						uses := false
+						var walk func(v ssa.Value, d int)
+						walk = func(v ssa.Value, d int) {
+							if d > 8 {
+								return
+							}
+							if leaves[v] {
+								uses = true
+								return
+							}
+							switch y := v.(type) {
+							case *ssa.Convert:
+								walk(y.X, d+1)
+							case *ssa.ChangeType:
+								walk(y.X, d+1)
+							case *ssa.BinOp:
+								walk(y.X, d+1)
+								walk(y.Y, d+1)
+							}
+						}
+						walk(inner, 0)
+						if uses {
+							pa.AltArith = true
+						}
+					}
+				}
+			}
+			out = append(out, pa)
+		}
+	}
+	return out
+}
+
+// ViaLoad reports whether the slice value's provenance chain goes through a
+// load from memory (a struct field or a spilled local).
+func ViaLoad(v ssa.Value) bool { return chainOf(v).viaLoad }
